@@ -9,6 +9,7 @@ import (
 	"go/types"
 	"os"
 	"path/filepath"
+	"regexp"
 	"sort"
 	"strings"
 
@@ -23,6 +24,8 @@ type FuncInfo struct {
 	IsSpec   bool // declared in a zz_verif_contracts.go file with a spec* name
 	LoopOrd  map[ast.Node]int
 	File     string
+	CutAt    map[ast.Stmt][]*Cut
+	CutErr   []string
 }
 
 type Prog struct {
@@ -125,6 +128,11 @@ func loadProg(root string, patterns []string) (*Prog, error) {
 	if len(missing) > 0 {
 		sort.Strings(missing)
 		return nil, fmt.Errorf("contracts for unknown functions: %s", strings.Join(missing, ", "))
+	}
+	for _, fi := range p.funcs {
+		if fi.Contract != nil && len(fi.Contract.Cuts) > 0 {
+			p.bindCuts(fi)
+		}
 	}
 	return p, nil
 }
@@ -385,4 +393,43 @@ func (v *Verifier) havocRange(st *State, sv SliceVal, lo, hi *Term) {
 		rows[r] = nr
 	}
 	v.eng.heapSetRows(st, sv.Sh.Elem, sv.Ref, rows)
+}
+
+var wsRe = regexp.MustCompile(`\s+`)
+
+func normStmt(b []byte) string { return strings.TrimSpace(wsRe.ReplaceAllString(string(b), " ")) }
+
+// bindCuts anchors each cut before the unique statement whose text starts with its anchor.
+// A cut whose anchor matches no statement (or several) is recorded as unbound; the function
+// is then rejected when verified (a stale contract is not silently dropped).
+func (p *Prog) bindCuts(fi *FuncInfo) {
+	fi.CutAt = map[ast.Stmt][]*Cut{}
+	src, err := os.ReadFile(fi.File)
+	if err != nil || fi.Decl.Body == nil {
+		return
+	}
+	for _, cut := range fi.Contract.Cuts {
+		want := normStmt([]byte(cut.Anchor))
+		var hits []ast.Stmt
+		ast.Inspect(fi.Decl.Body, func(n ast.Node) bool {
+			st, ok := n.(ast.Stmt)
+			if !ok {
+				return true
+			}
+			switch st.(type) {
+			case *ast.BlockStmt, *ast.CaseClause, *ast.LabeledStmt:
+				return true
+			}
+			a, b := p.fset.Position(st.Pos()).Offset, p.fset.Position(st.End()).Offset
+			if a >= 0 && b <= len(src) && strings.HasPrefix(normStmt(src[a:b]), want) {
+				hits = append(hits, st)
+			}
+			return true
+		})
+		if len(hits) == 1 {
+			fi.CutAt[hits[0]] = append(fi.CutAt[hits[0]], cut)
+		} else {
+			fi.CutErr = append(fi.CutErr, fmt.Sprintf("cut %d: anchor %q matches %d statements", cut.Ord, cut.Anchor, len(hits)))
+		}
+	}
 }
